@@ -4,7 +4,10 @@ use crate::explore::{hash_str, Stats, Violation};
 use serde_json::{json, Value};
 use std::path::{Path, PathBuf};
 
-pub const VERIF_DIR: &str = "/verif";
+/// /verif, or the directory of the driver script that started us (background snapshots)
+pub fn verif_dir() -> String {
+    std::env::var("PV_VERIF_DIR").unwrap_or_else(|_| "/verif".to_string())
+}
 
 #[derive(Clone, Debug)]
 pub struct Finding {
@@ -18,7 +21,7 @@ pub struct Finding {
 }
 
 pub fn load_findings() -> Vec<Finding> {
-    let p = Path::new(VERIF_DIR).join("known_findings.json");
+    let p = Path::new(&verif_dir()).join("known_findings.json");
     let Ok(s) = std::fs::read_to_string(&p) else {
         return vec![];
     };
@@ -78,7 +81,7 @@ pub fn triage(violations: &[Violation]) -> Outcome {
 }
 
 pub fn write_replay(v: &Violation) -> PathBuf {
-    let dir = Path::new(VERIF_DIR).join("replays");
+    let dir = Path::new(&verif_dir()).join("replays");
     let _ = std::fs::create_dir_all(&dir);
     let sig = format!("{}|{}", v.rule, v.witness);
     let name = format!(
@@ -121,7 +124,7 @@ pub fn seed() -> i64 {
 }
 
 pub fn write_evidence(meta: &EvidenceMeta, st: &Stats, outcome: &Outcome) {
-    let dir = Path::new(VERIF_DIR).join("evidence");
+    let dir = Path::new(&verif_dir()).join("evidence");
     let _ = std::fs::create_dir_all(&dir);
     let mut rule_hits = serde_json::Map::new();
     for (k, v) in &st.rule_hits {
